@@ -9,10 +9,11 @@ package staking
 // past the module-address check), its gas only decreases, and a failed staking transaction is still included
 // ("failed-but-included"): nonce stays raised, all gas is consumed (since YouV4), no balance changes.
 
-// The nine action handlers, called through the `handlers` table (a function value of type handlerFn).
-// ASSUMED (DESIGN §7 C17 clause 6, not decided here): a handler returns an error only on paths without a balance write,
-// and no handler touches the message context's gas fields, the nonce or the block gas pool (they use ctx.State for
-// validators/staking records/logs, and SubBalance of the sender in handleCreate/handleDeposit/handleDelegationAdd).
+// The nine action handlers, called through the `handlers` table (a function value of type handlerFn). TRUSTED dispatch contract:
+// a handler returns an error only on paths without a balance write. The three handlers that take value from the sender
+// (handleDeposit, handleCreate, handleDelegationAdd — the only SubBalance/AddBalance call sites of handler.go and
+// delegation_handler.go) are VERIFIED against it below ([failed-handler-keeps-balance]); the other six contain no balance call.
+// No handler touches the message context's gas fields, the nonce or the block gas pool.
 //@ func dynamic:handlerFn props C17
 //@ trusted
 //@ modifies c17Bal
@@ -46,3 +47,70 @@ package staking
 //@ ensures [failed-consumes-all-gas] result3 == nil && result2 && version >= params.YouV4 ==> msgCtx.AvailableGas == 0 ||
 //@     (version >= params.YouV5 && msgCtx.AvailableGas == old(msgCtx.AvailableGas) && old(msgCtx.AvailableGas) < params.TxValCreationGas)
 //@ ensures [failed-changes-no-balance] result3 == nil && result2 ==> c17Bal == old(c17Bal)
+
+// ---------------------------------------------------------------------------------------------------------------
+// The three value-taking request handlers (handler.go, delegation_handler.go): "the sender's balance changes by exactly the
+// value it … stakes", and a failed staking transaction (handler error ⇒ included as failed, no snapshot/revert around the
+// handlers) changes no balance: the sender is debited ONLY on the success path, once, exactly the requested value.
+// ---------------------------------------------------------------------------------------------------------------
+
+// Callees of the three handlers that read or write validator records, staking records, logs, hashes and signatures: no effect on
+// what C17 models (account balances and nonces, the message context, the gas pool); their results are unconstrained.
+// (TRUSTED, scoped to C17 by the file name. That they move no balance is what property C07 verifies for them.)
+//@ effectfree (*github.com/youchainhq/go-youchain/core/state.StateDB).AddLog (*github.com/youchainhq/go-youchain/core/state.StateDB).AddStakingRecord
+//@ effectfree (*github.com/youchainhq/go-youchain/core/state.StateDB).GetValidatorByMainAddr (*github.com/youchainhq/go-youchain/core/state.StateDB).PendingValidatorExist
+//@ effectfree (*github.com/youchainhq/go-youchain/core/state.StateDB).AddPendingRelationship (*github.com/youchainhq/go-youchain/core/state.StateDB).GetStakingRecordValue
+//@ effectfree (*github.com/youchainhq/go-youchain/core/state.StateDB).ValidatorPendingCount (*github.com/youchainhq/go-youchain/core/state.StateDB).PendingRelationshipExist
+//@ effectfree (*github.com/youchainhq/go-youchain/core/state.StateDB).GetCountOfDelegateTo (*github.com/youchainhq/go-youchain/core/state.StateDB).DelegatorPendingCount
+//@ effectfree (*github.com/youchainhq/go-youchain/core/state.Validator).MainAddress (*github.com/youchainhq/go-youchain/core/state.Validator).IsOperator
+//@ effectfree (*github.com/youchainhq/go-youchain/core/state.Validator).GetDelegationFrom
+//@ effectfree (github.com/youchainhq/go-youchain/core/state.DelegationFroms).Len (github.com/youchainhq/go-youchain/core/state.DelegationFroms).Exist
+//@ effectfree github.com/youchainhq/go-youchain/core/state.PubToAddress github.com/youchainhq/go-youchain/params.YOUToStake
+//@ effectfree github.com/youchainhq/go-youchain/common.StringToHash github.com/youchainhq/go-youchain/common.BigToHash
+//@ effectfree (github.com/youchainhq/go-youchain/common.Address).Hash (github.com/youchainhq/go-youchain/common.Address).String
+//@ effectfree (github.com/youchainhq/go-youchain/common/hexutil.Bytes).String (*math/big.Int).String
+//@ effectfree (*github.com/youchainhq/go-youchain/staking.TxCreateValidator).PreCheck (*github.com/youchainhq/go-youchain/staking.TxCreateValidator).Verify
+//@ effectfree (*github.com/youchainhq/go-youchain/staking.TxDelegation).PreCheck github.com/youchainhq/go-youchain/staking.combinePendingStakingLogData
+//@ effectfree (github.com/youchainhq/go-youchain/staking.Msg).PreCheck (github.com/youchainhq/go-youchain/staking.Msg).Verify
+
+// value taken from the sender by the running handler (0 = nothing taken yet)
+//@ ghost var c17Staked: int
+
+//@ func handleDeposit props C17
+//@ opt per-return
+//@ requires ctx != nil && ctx.Msg != nil && ctx.State != nil
+//@ ghost at entry: c17Staked := 0
+//@ ghost after call (*github.com/youchainhq/go-youchain/core/state.StateDB).SubBalance: c17Staked := c17Staked + big(a2)
+//@ assert before call (*github.com/youchainhq/go-youchain/core/state.StateDB).SubBalance: [debits-sender-once-the-requested-value]
+//@     c17Staked == 0 && a0 == ctx.State && a1 == c17From(ctx.Msg) && big(a2) == big(tx.Value)
+//@ modifies all, c17Bal, c17Staked
+//@ ensures [failed-handler-keeps-balance] result != nil ==> c17Bal == old(c17Bal)
+//@ ensures [debited-exactly-value] result == nil ==>
+//@     c17Bal == store(old(c17Bal), c17From(old(ctx.Msg)), old(c17Bal[c17From(ctx.Msg)]) - c17Staked)
+//@ ensures [context-kept] ctx.Msg == old(ctx.Msg) && ctx.State == old(ctx.State) && ctx.AvailableGas == old(ctx.AvailableGas) && ctx.InitialGas == old(ctx.InitialGas)
+
+//@ func handleCreate props C17
+//@ opt per-return
+//@ requires ctx != nil && ctx.Msg != nil && ctx.State != nil
+//@ ghost at entry: c17Staked := 0
+//@ ghost after call (*github.com/youchainhq/go-youchain/core/state.StateDB).SubBalance: c17Staked := c17Staked + big(a2)
+//@ assert before call (*github.com/youchainhq/go-youchain/core/state.StateDB).SubBalance: [debits-sender-once-the-requested-value]
+//@     c17Staked == 0 && a0 == ctx.State && a1 == c17From(ctx.Msg) && big(a2) == big(tx.Value)
+//@ modifies all, c17Bal, c17Staked
+//@ ensures [failed-handler-keeps-balance] result != nil ==> c17Bal == old(c17Bal)
+//@ ensures [debited-exactly-value] result == nil ==>
+//@     c17Bal == store(old(c17Bal), c17From(old(ctx.Msg)), old(c17Bal[c17From(ctx.Msg)]) - c17Staked)
+//@ ensures [context-kept] ctx.Msg == old(ctx.Msg) && ctx.State == old(ctx.State) && ctx.AvailableGas == old(ctx.AvailableGas) && ctx.InitialGas == old(ctx.InitialGas)
+
+//@ func handleDelegationAdd props C17
+//@ opt per-return
+//@ requires ctx != nil && ctx.Msg != nil && ctx.State != nil
+//@ ghost at entry: c17Staked := 0
+//@ ghost after call (*github.com/youchainhq/go-youchain/core/state.StateDB).SubBalance: c17Staked := c17Staked + big(a2)
+//@ assert before call (*github.com/youchainhq/go-youchain/core/state.StateDB).SubBalance: [debits-sender-once-the-requested-value]
+//@     c17Staked == 0 && a0 == ctx.State && a1 == c17From(ctx.Msg) && big(a2) == big(d.Value)
+//@ modifies all, c17Bal, c17Staked
+//@ ensures [failed-handler-keeps-balance] result != nil ==> c17Bal == old(c17Bal)
+//@ ensures [debited-exactly-value] result == nil ==>
+//@     c17Bal == store(old(c17Bal), c17From(old(ctx.Msg)), old(c17Bal[c17From(ctx.Msg)]) - c17Staked)
+//@ ensures [context-kept] ctx.Msg == old(ctx.Msg) && ctx.State == old(ctx.State) && ctx.AvailableGas == old(ctx.AvailableGas) && ctx.InitialGas == old(ctx.InitialGas)
